@@ -30,3 +30,11 @@ Theorem C17_forbidden_segment : forall nx ev d pool input,
   validate_valuepool nx ev d pool input IS_FORBIDDEN = Ok (d, VDe IS_FORBIDDEN true None None (Some []) DT_VALUE_POOL).
 Proof. exact forbidden_segment_forbids. Qed.
 Print Assumptions C17_forbidden_segment.
+
+(* ---- tie T: validate_data_element_valuepool executed by the translator on every pool of 0..3 entries (fulfilled / unfulfilled / invalid expressions, also a
+   repeated qualifier) x every entered input x the three statuses of the segment (Gen/Gen_pool.v) reports what validate_valuepool -- the function the
+   theorems above are about -- reports, including the text of the hint for an unexpected value and the offered values in order. *)
+From Ahb Require Import Gen.Gen_pool Proofs.C17_gen.
+Theorem C17_value_pool_validation_is_the_regenerated_table : forallb pool_row_ok pool_rows = true /\ length pool_rows = 1071.
+Proof. exact (conj pool_rows_ok pool_rows_complete). Qed.
+Print Assumptions C17_value_pool_validation_is_the_regenerated_table.
